@@ -53,6 +53,7 @@ class _Sim:
         self.subs = {}      # reg -> {'live': bool, 'imgs': [corr]}
         self.order = []
         self.pubs = {}      # reg -> (key, inmap)
+        self.old_keys = []  # keys of publications dropped earlier (a later publication may share that log again)
         self.keyfile = {}
         self.clones = 0
         self.closed = False
@@ -113,9 +114,9 @@ def gen_history(rng, malformed=False):
                 sim.order.append(sim.next_id)
                 sim.next_id += 1
             sim.cycle(now)
-        elif r < 0.16 and len(sim.pubs) < 3:
-            keys = [k for (k, _) in sim.pubs.values()]
-            share = rng.choice(keys) if keys and rng.random() < 0.4 else -1
+        elif r < 0.18 and len(sim.pubs) < 3:
+            keys = [k for (k, _) in sim.pubs.values()] + sim.old_keys
+            share = rng.choice(keys) if keys and rng.random() < 0.5 else -1
             key = share if share >= 0 else sim.next_id
             f = sim.file_of(key, rng)
             if malformed and rng.random() < 0.3:
@@ -190,6 +191,7 @@ def gen_history(rng, malformed=False):
             sim.now = max(sim.now, now)
             if sim.pubs[reg][1]:
                 sim.next_id += 1
+            sim.old_keys.append(sim.pubs[reg][0])
             del sim.pubs[reg]
             sim.stamps.append(now)
         elif r < 0.93 and held:
@@ -250,6 +252,12 @@ def scripted():
         ops = [['P', 7000, -1, 3], ['P', 7000, 1, 3], ['S', 7000], ['A', 7100, 1002, 3, 0], ['X', 7200], ['T', 8201], ['DP', 8300, 1],
                ['T', 9400], ['T', 15000], ['DP', 15000, 2], ['DS', 15100, 3], ['T', 16101 + d], ['T', 21102 + d], ['T', 30000]]
         cases.append({'kind': 'run', 'cfg': [5000, 7000, 0], 'ops': ops, 'nt': True})
+    for d in (-1, 0, 1):
+        # a publication dropped, its log seen unreferenced (stamped at 21001), the log handed out again to a second publication
+        # before the linger period ends, that one dropped at 25000: the mapping must survive until 30000 at least
+        ops = [['P', 20000, -1, 1], ['DP', 20500, 1], ['T', 21001], ['P', 24000, 1, 1], ['DP', 25000, 3], ['T', 26002 + d], ['T', 27003],
+               ['T', 30000 + d], ['T', 32004 + d], ['T', 40000]]
+        cases.append({'kind': 'run', 'cfg': [5000, 20000, 0], 'ops': ops, 'nt': True})
     return cases
 
 
